@@ -16,17 +16,20 @@ RULE = ("Hypothesis draws either a PWLCalibration case (2-8 keypoints, "
         "tensor / missing_input_value / both, learned or fixed missing output, "
         "missing value possibly equal to a keypoint; fixed or learned_interior "
         "keypoints with logits |.| <= 30, or up to 1e4 for the ordering clause; "
-        "a kernel from the array mixture, optionally made monotone; a batch "
-        "mixing inputs on keypoints, between, just outside, far outside and "
-        "missing) or a CategoricalCalibration case (1-8 buckets, units 1-3, "
-        "both input shapes, float/int32/int64/uint8 indices, default value "
-        "absent / out of range / in range, split_outputs). The layer output "
+        "keypoints passed as list / ndarray / tensor; layer dtype float32, or "
+        "float64 in 1 of 8 cases; a kernel from the array mixture, optionally "
+        "made monotone; a batch mixing inputs on keypoints, their float32 "
+        "neighbours, between, just outside, far outside and missing) or a "
+        "CategoricalCalibration case (1-8 buckets, units 1-3, both input "
+        "shapes, float/int32/int64/uint8 indices, default value absent / out "
+        "of range / in range, split_outputs, kernel dtype float32 or float64 "
+        "in 1 of 8 cases). The layer output "
         "is compared with a float64 evaluation of the documented function. "
         "Non-trivial: PWL - some unit has a non-zero segment height; "
         "categorical - the kernel is not constant (or non-zero for one "
         "bucket); distinct by SHA-1 of the case.")
 NT_FLOOR = 0.6
-BUDGET = {"quick": 700, "thorough": 9000}
+BUDGET = {"quick": 1200, "thorough": 12000}
 TECHNIQUE = ("property-based testing (Hypothesis): differential against a "
              "float64 reference (np.interp / interval evaluation of the "
              "documented clip formula / table lookup) plus metamorphic "
@@ -46,13 +49,17 @@ LEVEL_TEXT = ("Generated-input exploration: thousands of random valid "
               "mistakes; shows no absence.")
 LEVEL_NOTE = ("Trusted: TensorFlow/NumPy arithmetic, the harness. Tolerance "
               "1e-4*max(1,|bias|+sum|heights|) per unit around the reference "
-              "evaluated over the input interval x +- delta, delta = float32 "
-              "rounding of the keypoints (0 for float32 fixed keypoints); "
+              "evaluated over the input interval x +- delta, delta = rounding "
+              "of the keypoints in the layer dtype (0 for fixed keypoints that "
+              "are exact in the layer dtype, (2n+8) eps * keypoint scale for "
+              "learned ones); "
               "missing outputs and categorical lookups are compared exactly "
               "(modulo TensorFlow's flush of float32 denormals to zero). "
               "Outputs are not judged for |logit| > 30 except far outside the "
               "keypoint range (collapsed segments are known finding F-C15-2). "
-              "Sizes bounded as stated in the rule; float32 layers only.")
+              "A library exception on a float64 layer is reported with "
+              "dtype=float64 in its signature. Sizes bounded as stated in the "
+              "rule.")
 ASSUMPTIONS = ["is_cyclic needs at least 3 keypoints (2 keypoints are rejected "
                "by the layer's initializer with a ValueError)",
                "when both missing_input_value and an is_missing tensor are "
@@ -322,7 +329,6 @@ class _Pwl(object):
       lg = np.clip(lg, -lim, lim).astype(np.float32)
       self.extreme = case["logit_mode"] == "extreme"
       self.layer.interpolation_logits.assign(lg.astype(self.npdt))
-      self.logits = lg
       rng = kp64[-1] - kp64[0]
       kpu = []
       for u in range(units):
@@ -343,7 +349,7 @@ class _Pwl(object):
     self.kscale = kscale
     self.min_len = float(np.min(np.diff(self.kpu, axis=1)))
 
-    # missing output per unit (float32 values held by the layer)
+    # missing output per unit (float32-representable values)
     self.mo = None
     if self.missing != "none":
       if case["mout"] == "learned":
@@ -361,7 +367,6 @@ class _Pwl(object):
     b = case["batch"]
     x = np.zeros((b, self.ncols), np.float32)
     flag = np.zeros((b, self.ncols), bool)
-    cls = np.empty((b, self.ncols), object)
     present = set()
     for r in range(b):
       for c in range(self.ncols):
@@ -418,7 +423,6 @@ class _Pwl(object):
         if 0 < abs(v) < TINY32:      # no denormal inputs (flushed by TF)
           v = np.float32(np.sign(v) * TINY32)
         x[r, c] = v
-        cls[r, c] = kind
         present.add(kind)
     return x, flag, present
 
@@ -443,7 +447,6 @@ class _Pwl(object):
   # ---- judging
   def judge(self, out, x, miss, y, clause, delta):
     """Compares y (batch, units) with the documented function at x."""
-    b = x.shape[0]
     sig = dict(kp_type=self.case["kp_type"], cyclic=self.cyclic,
                cols=self.case["cols"], missing=self.missing)
     worst, width = 0.0, 0.0
